@@ -940,6 +940,10 @@ def fam_range_headers():
                         k += 1
                         sep = (",", ", ", ",\t ")[(i + j) % 3]
                         out.append({"id": "rg%d" % k, "method": "GET", "headers": [("range", "bytes=%s%s%s" % (s1, sep, s2))], "len": L, "etag": '"x"', "lm": "1000000000.0", "scripts": [], "extra_polls": 0})
+    for L, pre in ((200, "0-9,10-39"), (200, "0-19,20-39"), (400, "0-19,20-39,40-159"), (201, "0-9,10-39"), (199, "0-9,10-39")):
+        for tail in ("", ",100-109", ",oops", ",18446744073709551616-", ",-30", ",", ",150-", ",0-0"):
+            k += 1
+            out.append({"id": "rg%d" % k, "method": "GET", "headers": [("range", "bytes=" + pre + tail)], "len": L, "etag": '"x"', "lm": "1000000000.0", "scripts": [], "extra_polls": 0})
     # values that are not range requests at all (short, other units, other case, stray whitespace, empty list elements)
     for v in ("", "b", "byte", "bytes", "bytes=", "0-1", "-5", "none", "=", "bytes =0-1", "Bytes=0-1", "BYTES=0-1", "bytes=0-1,", "bytes=,0-1", "bytes=0-1,,2-3",
               "bytes=0-1 ", " bytes=0-1", "bytes=0 - 1", "bytes=-", "bytes=--1", "bytes=1--2", "bytes=a-b", "bytes=0x1-2", "bytes=+1-2", "bytes=1-2;q=1", "items=0-1", "bytes"):
@@ -1066,6 +1070,12 @@ def fam_cond():
             for v in tl:
                 k += 1
                 out.append({"id": "cd%d" % k, "method": "GET", "headers": [(hname, v)], "len": 10, "etag": etag, "lm": "%d.0" % LM, "scripts": ["N"], "extra_polls": 0})
+    for lm0 in ("0.0", "0.500000000", "1.0", "0.999999999"):
+        sec0 = int(lm0.split(".")[0])
+        for hs in ([("if-modified-since", http_date(sec0))], [("if-unmodified-since", http_date(sec0))], [("if-modified-since", http_date(sec0 + 1))], [("if-unmodified-since", http_date(sec0 + 1))],
+                   [("if-modified-since", "garbage")], [("if-none-match", '"x"'), ("if-modified-since", http_date(sec0))]):
+            k += 1
+            out.append({"id": "cd%d" % k, "method": "GET", "headers": hs, "len": 10, "etag": '"x"', "lm": lm0, "scripts": ["N"], "extra_polls": 0})
     for frac in ("999999999", "999000000", "000000001", "999999000"):
         for hs in ([("if-modified-since", http_date(LM))], [("if-unmodified-since", http_date(LM))], [("if-modified-since", http_date(LM - 1))], [("if-unmodified-since", http_date(LM - 1))],
                    [("if-modified-since", http_date(LM + 1))], [("if-unmodified-since", http_date(LM + 1))]):
